@@ -29,6 +29,7 @@ from .core import callee_of, callee_path, strip_refs, strip_payload, show_expr, 
 from .engine import Inconclusive
 from .roles import Roles
 from . import prov as P
+from . import panic as PN
 
 
 def operator_receives_operand_list(ctx, facts, roles, t, cfg, K):
@@ -148,7 +149,10 @@ def run(ctx):
                     cb, cbi = pe_calls[0]
                     tm = cb.blocks[cbi]["term"]
                     recv = strip_refs(cb.trace(tm["args"][0]))
-                    ctx.check(cb.kind == "closure" and recv == ("arg", 2), "K3.per-argument", "the evaluated thing is the iteration element (%s, %s)" % (t.role, cfg),
+                    from .core import strip_payload as _sp
+                    elem = _sp(recv)
+                    loop_elem = cb.key == ev.key and elem[0] == "call" and elem[1] and elem[1]["path"].endswith("::next") and any(cbi in bl for (h_, bl, s_) in PN.loops_of(cb))
+                    ctx.check((cb.kind == "closure" and recv == ("arg", 2)) or loop_elem, "K3.per-argument", "the evaluated thing is the iteration element (%s, %s)" % (t.role, cfg),
                               "the single evaluator call is not applied to the per-argument closure parameter", where=cb.where(cbi), fn=cb.key)
             operator_receives_operand_list(ctx, facts, roles, t, cfg, "K3")
 
